@@ -127,10 +127,24 @@ theorem importMod_le (w : World) (st : St) (m : Mod) : ∀ r, importMod w st m =
       | some e => simp [he] at hr; subst hr; exact h1
       | none => simp only [he] at hr; exact h1.trans (execMod_le w s1 m r hr)
 
+theorem afterNotFound_le (w : World) (st : St) (m : Mod) : StLe st (afterNotFound w st m) := by
+  unfold afterNotFound
+  cases m.sub with
+  | none => exact StLe.refl _
+  | some s =>
+    simp only
+    cases he : execMod w st ⟨m.pkg, none⟩ with
+    | none => exact StLe.refl _
+    | some r =>
+      obtain ⟨st', e⟩ := r
+      cases e with
+      | some e => exact StLe.refl _
+      | none => exact execMod_le w st _ _ he
+
 theorem loadPath_le (w : World) (st : St) (p : PathE) : StLe st (loadPath w st p).1 := by
   unfold loadPath
   cases hi : importMod w st p.mod with
-  | none => exact StLe.refl _
+  | none => exact afterNotFound_le w st _
   | some r =>
     have h1 := importMod_le w st _ r hi
     obtain ⟨s1, e1⟩ := r
@@ -212,7 +226,7 @@ def runHist (w : World) (st : St) : List HOp → St
   | [] => st
   | .imp m :: rest =>
     match importMod w st m with
-    | none => runHist w st rest
+    | none => runHist w (afterNotFound w st m) rest
     | some (st', _) => runHist w st' rest
   | .get i r o :: rest => runHist w (get w st i r o).1 rest
 
@@ -224,7 +238,7 @@ theorem runHist_le (w : World) (ops : List HOp) (st : St) : StLe st (runHist w s
     | imp m =>
       simp only [runHist]
       cases hi : importMod w st m with
-      | none => exact ih st
+      | none => exact (afterNotFound_le w st m).trans (ih _)
       | some r =>
         obtain ⟨s1, e1⟩ := r
         exact (importMod_le w st m _ hi).trans (ih s1)
@@ -241,7 +255,7 @@ theorem runHist_sound (w : World) (ops : List HOp) (st : St) (hs : StSound (InWo
     | imp m =>
       simp only [runHist]
       cases hi : importMod w st m with
-      | none => exact ih st hs
+      | none => exact ih _ (afterNotFound_sound w st m hs)
       | some r =>
         obtain ⟨s1, e1⟩ := r
         exact ih s1 (importMod_sound w st m hs _ hi)
